@@ -70,6 +70,13 @@ func genIsolationPlan(seed uint64, tier string) *Plan {
 		c.Knobs = map[string]int{"chanCapDiv": 100000, "stallAtUs": 3000 + g.intn(3000), "stallMs": g.pick2(2000, 5000), "maxSteps": 2000000}
 		p.Variant = "congested"
 	}
+	if !congested && g.chance(15) {
+		// a slow node: every queue hand-over inside the proxy (parser, message loop) takes a while, so the receive
+		// goroutine runs ahead of them, datagrams that arrive at different instants are in the proxy together and
+		// receive buffers are recycled while earlier datagrams are still queued
+		c.Knobs = map[string]int{"recvCostUs": g.pick2(50, 200, 1000)}
+		p.Variant = "slow-node"
+	}
 	c.Faults.MinLat = 50 * time.Microsecond
 	c.Faults.MaxLat = 500 * time.Microsecond
 	// now and then the proxy's own datagram write fails (ENOBUFS): that relay is lost, nothing of it may linger
